@@ -2,6 +2,7 @@
    The harness drives segment.Segment.Put/Get and dumps: per write the callbacks in the order Go made
    them, the final tree, and per queried aligned range the get callbacks.  All times are Unix
    seconds as Go reports them; they are converted to slots here. *)
+From Pyro Require Export Corr.CorrC03Stor.   (* storage-level histories (hop terms); listed first so that this file's own names win *)
 From Pyro Require Export Model.Base Model.Float53 Model.Segment Corr.Verdict.
 From Pyro Require Import Proofs.SegCanon.   (* only for the definition of the canonical decomposition s_canon *)
 Open Scope string_scope.
@@ -15,7 +16,7 @@ Inductive onode := ON (depth : nat) (t : Z) (present : bool) (samples writes : N
 Inductive o_write := OW (st et : Z) (smp : N) (nst net : Z) (cbs : list o_pcb).
 Inductive o_query := OQ (st et : Z) (cbs : list o_gcb).
 
-Record case := {
+Record seg_case := {
   c_writes : list o_write;
   c_tree : option onode;
   c_queries : list o_query
@@ -279,7 +280,7 @@ Fixpoint build_store (n j : nat) (ws : list o_write) (E : option vstore) : optio
 
 Definition keep_some {A} (l : list (option A)) : list A := somes l.
 
-Definition check_case (c : case) : verdict :=
+Definition check_seg_case (c : seg_case) : verdict :=
   let n := length (c_writes c) in
   let '(model, mv) := run_model (c_writes c) s_empty [] in
   let nw := map (fun w => match w with OW _ _ _ nst net _ => (unix_to_slot nst, unix_to_slot net) end) (c_writes c) in
@@ -312,4 +313,13 @@ Definition check_case (c : case) : verdict :=
                 | _, _ => true
                 end) "samples counters differ from the model (binary64 share)"
         ])
+  end.
+
+(* A case is either a segment-level one (above) or a storage-level history (Corr/CorrC03Stor.v). *)
+Inductive case := SegCase (c : seg_case) | StorCase (ops : list hop).
+
+Definition check_case (c : case) : verdict :=
+  match c with
+  | SegCase c => check_seg_case c
+  | StorCase ops => CorrC03Stor.check_stor ops
   end.
